@@ -248,14 +248,315 @@ pub fn specs() -> Vec<SpecCase> {
     ]
 }
 
-pub fn run(args: &Args) -> Report {
-    let mut rep = Report::new("C19", "fixed set of a2ml_specification! invocations x conforming IF_DATA instances x shape mismatches");
-    let _ = args;
-    for s in specs() {
-        println!("{}\n{}", s.name, s.text);
-        let _ = &s.root;
-        let _ = s.roundtrip;
+/// the structure of `t` in the format of the hook `a2ml_dump` (verif_hooks.rs `dump_spec`)
+pub fn dump_t(t: &T, out: &mut String) {
+    match t {
+        T::Scalar(s) => out.push_str(s),
+        T::CharArr(n) => out.push_str(&format!("arr[{n} char]")),
+        T::Arr(of, n) => {
+            out.push_str(&format!("arr[{n} "));
+            dump_t(of, out);
+            out.push(']');
+        }
+        T::Enum(items) => {
+            let mut v: Vec<&(String, Option<i32>)> = items.iter().collect();
+            v.sort();
+            out.push_str("enum{");
+            for (n, val) in v {
+                out.push_str(&format!("{n:?}={val:?} "));
+            }
+            out.push('}');
+        }
+        T::Struct(items) => {
+            out.push_str("struct{");
+            for it in items {
+                dump_t(it, out);
+                out.push(' ');
+            }
+            out.push('}');
+        }
+        T::TaggedStruct(items) | T::TaggedUnion(items) => {
+            out.push_str(if matches!(t, T::TaggedStruct(_)) { "ts{" } else { "tu{" });
+            let mut v: Vec<&Tagged> = items.iter().collect();
+            v.sort_by(|a, b| a.tag.cmp(&b.tag));
+            for it in v {
+                out.push_str(&format!("({:?} {} {} ", it.tag, u8::from(it.is_block), u8::from(it.repeat)));
+                match (&it.item, it.seq) {
+                    (None, _) => out.push_str("none"),
+                    (Some(x), false) => dump_t(x, out),
+                    (Some(x), true) => {
+                        out.push_str("seq(");
+                        dump_t(x, out);
+                        out.push(')');
+                    }
+                }
+                out.push(')');
+            }
+            out.push('}');
+        }
     }
-    rep.case(&"x", true);
+}
+
+fn count_nodes(t: &T) -> usize {
+    1 + match t {
+        T::Arr(of, _) => count_nodes(of),
+        T::Struct(items) => items.iter().map(count_nodes).sum(),
+        T::TaggedStruct(items) | T::TaggedUnion(items) => items.iter().map(|it| it.item.as_ref().map_or(0, count_nodes)).sum(),
+        _ => 0,
+    }
+}
+
+const SCALARS: [&str; 10] = ["char", "int", "long", "int64", "uchar", "uint", "ulong", "uint64", "float", "double"];
+
+/// a definition of another shape: one node of `t` (the `k`-th in pre-order) is changed -- shorter / longer array, other
+/// scalar type, string <-> number, member removed or added, enum with other items, tagged member without data / with
+/// other block-ness / as a sequence, taggedstruct <-> taggedunion
+fn mutate(t: &T, k: &mut usize, rng: &mut Rng) -> T {
+    let here = *k == 0;
+    *k = k.wrapping_sub(1);
+    if here {
+        return match t {
+            T::Scalar(s) => {
+                if rng.chance(1, 4) {
+                    T::CharArr(8)
+                } else {
+                    let mut o = SCALARS[rng.below(10)];
+                    if o == *s {
+                        o = if *s == "uint" { "long" } else { "uint" };
+                    }
+                    T::Scalar(o)
+                }
+            }
+            T::CharArr(_) => T::Scalar(SCALARS[rng.below(10)]),
+            T::Arr(of, n) => match rng.below(3) {
+                0 if *n > 1 => T::Arr(of.clone(), n - 1),
+                1 => T::Arr(of.clone(), n + 1),
+                _ if *n > 1 => T::Arr(of.clone(), 1),
+                _ => (**of).clone(),
+            },
+            T::Enum(items) => {
+                if rng.chance(1, 2) {
+                    T::Enum(vec![("OTHER_ITEM".into(), None), (items[0].0.clone(), None)])
+                } else {
+                    T::Scalar("uint")
+                }
+            }
+            T::Struct(items) => {
+                let mut v = items.clone();
+                match rng.below(3) {
+                    0 if v.len() > 1 => {
+                        v.pop();
+                    }
+                    1 if v.len() > 1 => {
+                        v.remove(0);
+                    }
+                    _ => v.push(T::Scalar("ulong")),
+                }
+                T::Struct(v)
+            }
+            T::TaggedStruct(items) | T::TaggedUnion(items) => {
+                let mut v = items.clone();
+                let i = rng.below(v.len());
+                match rng.below(5) {
+                    0 => v[i].is_block = !v[i].is_block,
+                    1 => v[i].item = None,
+                    2 => {
+                        // sequences of strings are ambiguous for the non-strict reader (see a2mlgen.rs)
+                        v[i].seq = !v[i].seq && v[i].item.as_ref().map_or(false, |x| matches!(x, T::Scalar(_) | T::Enum(_)));
+                    }
+                    3 => v[i].item = Some(T::Scalar("uint")),
+                    _ => {
+                        return if matches!(t, T::TaggedStruct(_)) {
+                            T::TaggedUnion(v.into_iter().map(|mut x| { x.repeat = false; x }).collect())
+                        } else {
+                            T::TaggedStruct(v)
+                        };
+                    }
+                }
+                if matches!(t, T::TaggedStruct(_)) { T::TaggedStruct(v) } else { T::TaggedUnion(v) }
+            }
+        };
+    }
+    match t {
+        T::Arr(of, n) => T::Arr(Box::new(mutate(of, k, rng)), *n),
+        T::Struct(items) => T::Struct(items.iter().map(|it| mutate(it, k, rng)).collect()),
+        T::TaggedStruct(items) | T::TaggedUnion(items) => {
+            let v: Vec<Tagged> = items
+                .iter()
+                .map(|it| Tagged { item: it.item.as_ref().map(|x| mutate(x, k, rng)), ..it.clone() })
+                .collect();
+            if matches!(t, T::TaggedStruct(_)) { T::TaggedStruct(v) } else { T::TaggedUnion(v) }
+        }
+        other => other.clone(),
+    }
+}
+
+fn doc(a2ml: &str, insts: &[Vec<String>]) -> String {
+    let mut s = String::from("ASAP2_VERSION 1 71\n/begin PROJECT p \"\"\n/begin MODULE m \"\"\n");
+    s.push_str(&format!("/begin A2ML\n{a2ml}\n/end A2ML\n"));
+    for inst in insts {
+        s.push_str(&format!("/begin IF_DATA {}\n/end IF_DATA\n", inst.join(" ")));
+    }
+    s.push_str("/end MODULE\n/end PROJECT\n");
+    s
+}
+
+pub fn run(args: &Args) -> Report {
+    let mut rep = Report::new(
+        "C19",
+        "a fixed set of a2ml_specification! invocations (compiled with the in-tree a2lmacros; together: all 10 scalar types, char[n], arrays, enums with / without values, named and anonymous structs, sequences of numbers / strings / structs, taggedstruct and taggedunion with repeated members, blocks, nested blocks, references to named types, root = taggedunion / taggedstruct / struct) x conforming IF_DATA instances from the instance generator x IF_DATA parsed under a different in-file definition (one node changed: array length, scalar type, members, enum items, block-ness, data, sequence, taggedstruct <-> taggedunion). non-trivial = every case; distinct = distinct (specification, definition, instance)",
+    );
+    let mut rng = Rng::new(args.seed);
+    let n_inst = if args.thorough { 4000 } else { 150 };
+    let n_mut = if args.thorough { 3000 } else { 150 };
+    for s in specs() {
+        // --- the generated text constant: accepted by the library's A2ML parser, same structure as the typed code
+        let mut want = String::new();
+        dump_t(&s.root, &mut want);
+        match catch(|| a2lfile::verif_hooks::a2ml_dump(s.text)) {
+            Err(p) => rep.fail("panic", format!("{} -", hex(s.text.as_bytes())), format!("A2ML parser panicked on the text constant of {}: {p}", s.name)),
+            Ok(Err(e)) => rep.fail("constant-rejected", format!("{} -", hex(s.text.as_bytes())), format!("the text constant of {} is rejected by the A2ML parser: {e}", s.name)),
+            Ok(Ok(got)) => {
+                rep.case(&s.text, true);
+                rep.tie(format!("aml {}", hex(s.text.as_bytes())), format!("ok {got}"));
+                if got != want {
+                    rep.fail("constant-structure", format!("{} -", hex(s.text.as_bytes())), format!("text constant of {} describes {got}, the specification is {want}", s.name));
+                }
+            }
+        }
+        // --- conforming instances: typed load, store, reload, write
+        let mut batch: Vec<Vec<String>> = vec![];
+        for i in 0..n_inst {
+            let inst = gen_instance(&mut rng, &s.root);
+            if inst.is_empty() || conforms(&s.root, &inst, false) != Some(true) {
+                rep.bump("generator:instance-skipped");
+                continue;
+            }
+            batch.push(inst);
+            if batch.len() == 8 || i + 1 == n_inst {
+                run_batch(&mut rep, &s, s.text, &batch, true);
+                batch.clear();
+            }
+        }
+        // --- shape mismatches: content parsed under a different definition, decoded with the typed code of `s`
+        for _ in 0..n_mut {
+            let mut k = rng.below(count_nodes(&s.root));
+            let other = mutate(&s.root, &mut k, &mut rng);
+            let (mut a, mut b) = (String::new(), String::new());
+            dump_t(&s.root, &mut a);
+            dump_t(&other, &mut b);
+            if a == b {
+                continue;
+            }
+            let text = {
+                let mut g = A2mlGen::new(&mut rng);
+                let root = g.render(&other);
+                let mut t = String::new();
+                for (kw, name, body) in &g.named {
+                    t.push_str(&format!("{kw} {name} {body};\n"));
+                }
+                t.push_str(&format!("block \"IF_DATA\" {root};"));
+                t
+            };
+            let insts: Vec<Vec<String>> = (0..4).map(|_| gen_instance(&mut rng, &other)).filter(|i| !i.is_empty() && conforms(&other, i, false) == Some(true)).collect();
+            if insts.is_empty() {
+                continue;
+            }
+            rep.bump("shape-mismatch");
+            run_batch(&mut rep, &s, &text, &insts, false);
+        }
+        rep.sample(format!("{}: {}", s.name, want));
+    }
     rep
+}
+
+/// one document with the definition `a2ml` and the given IF_DATA contents; every block that the library flags valid is
+/// decoded with the typed code of `s`
+fn run_batch(rep: &mut Report, s: &SpecCase, a2ml: &str, insts: &[Vec<String>], conforming: bool) {
+    let text = doc(a2ml, insts);
+    let input = format!("{} {}", s.name, hex(text.as_bytes()));
+    rep.case(&input, true);
+    let f = match catch(|| a2lfile::load_from_string(&text, None, false)) {
+        Err(p) => {
+            rep.fail("panic", input, format!("load panicked: {p}"));
+            return;
+        }
+        Ok(Err(e)) => {
+            rep.fail("infrastructure", input, format!("generated document rejected: {e}"));
+            return;
+        }
+        Ok(Ok((f, _))) => f,
+    };
+    let original = f.write_to_string();
+    let blocks = f.project.module[0].if_data.clone();
+    if blocks.len() != insts.len() {
+        rep.fail("infrastructure", input, format!("{} IF_DATA blocks expected, {} loaded", insts.len(), blocks.len()));
+        return;
+    }
+    // correspondence: per block `inv` (flagged invalid), `none` (no typed value), `some:<file written with only the
+    // block that the typed value was stored into>`
+    let mut outcome: Vec<String> = vec![];
+    for (k, ifdata) in blocks.iter().enumerate() {
+        if !ifdata.ifdata_valid {
+            outcome.push("inv".into());
+            if conforming {
+                rep.fail("conforming-invalid", input.clone(), format!("block #{k} [{}] conforms to the text constant of {} but is flagged invalid", insts[k].join(" "), s.name));
+            }
+            continue;
+        }
+        let rt = s.roundtrip;
+        match catch(|| rt(ifdata)) {
+            Err(p) => {
+                outcome.push("PANIC".into());
+                rep.fail(if conforming { "panic" } else { "mismatch-panic" }, input.clone(), format!("typed decoding of block #{k} [{}] with {} panicked: {p}", insts[k].join(" "), s.name));
+            }
+            Ok(None) => {
+                outcome.push("none".into());
+                if conforming {
+                    rep.fail("typed-load-none", input.clone(), format!("load_from_ifdata yields no value for conforming block #{k} [{}] of {}", insts[k].join(" "), s.name));
+                } else {
+                    rep.bump("mismatch:no-value");
+                }
+            }
+            Ok(Some((dbg, eq, same, fresh))) => {
+                {
+                    let mut f3 = f.clone();
+                    f3.project.module[0].if_data = vec![fresh.clone()];
+                    outcome.push(format!("some:{}", hex(f3.write_to_string().as_bytes())));
+                }
+                if !conforming {
+                    rep.bump("mismatch:decoded-anyway");
+                    continue;
+                }
+                rep.bump("typed-roundtrip");
+                if !eq {
+                    rep.fail("store-load-differs", input.clone(), format!("store_to_ifdata then load_from_ifdata yields a different value for block #{k} [{}]: {dbg}", insts[k].join(" ")));
+                }
+                // stored back into the block it came from: the written file is unchanged
+                let mut f2 = f.clone();
+                f2.project.module[0].if_data[k] = same;
+                let w2 = f2.write_to_string();
+                if w2 != original {
+                    let d = crate::c01::first_diff(&original, &w2);
+                    rep.fail("store-write-differs", input.clone(), format!("load, store and write changes the file for block #{k} [{}]: {d:?}", insts[k].join(" ")));
+                }
+                // stored into a fresh block: the values are the same
+                // (a fresh block has no position and is written after the others: compare files with this block only)
+                let mut f3 = f.clone();
+                f3.project.module[0].if_data = vec![fresh];
+                let w3 = f3.write_to_string();
+                let mut f4 = f.clone();
+                f4.project.module[0].if_data = vec![ifdata.clone()];
+                let original = f4.write_to_string();
+                match (crate::c02::sig_tokens(&original), crate::c02::sig_tokens(&w3)) {
+                    (Some((a, _)), Some((b, _))) if a == b => {}
+                    _ => {
+                        let d = crate::c01::first_diff(&original, &w3);
+                        rep.fail("fresh-store-values", input.clone(), format!("storing into a fresh IF_DATA block changes the written values for block #{k} [{}]: {d:?}", insts[k].join(" ")))
+                    }
+                }
+            }
+        }
+    }
+    rep.tie(format!("typ {} {} {}", hex(s.text.as_bytes()), hex(text.as_bytes()), crate::tree::float_table(&text)), outcome.join(","));
 }
